@@ -198,7 +198,9 @@ func init() {
 						fc.Missing = []int{m}
 						fc.NotFound = m%2 == 0
 						fc.Script = [][]any{{"asbytes"}, {"open", 1}, {"readall", 1, 1}, {"open", 2}, {"readall", 2, sh.k + 1},
-							{"open", 3}, {"readall", 3, L + 7}, {"seek", 3, 0, 0}, {"readall", 3, 2}}
+							{"open", 3}, {"readall", 3, L + 7}, {"seek", 3, 0, 0}, {"readall", 3, 2},
+							// the block comes back: every reader resumes exactly where the error left it
+							{"heal"}, {"readall", 1, 1}, {"readall", 2, sh.k + 1}, {"readall", 3, 2}, {"asbytes"}}
 						if err := runFileCase(fc, tr); err != nil {
 							return err
 						}
